@@ -109,7 +109,7 @@ text differ only in *how* a declining callback declines: the template turns UNHA
 itself, the text returns UNHANDLED (and the processor then asks with EMPTY_SIGNAL). -/
 theorem C17_same_up_to_decline (r : Reg) (d : Nat) (hr : RegOK r) :
     SameUpToDecline (tmplChart r d) (flatChart r d) := by
-  refine ⟨?_, ?_, rfl⟩
+  refine ⟨?_, ?_, rfl, fun _ => rfl⟩
   · intro s n
     simp only [tmplChart, flatChart]
     rw [C17_ladder_answers_like_table _ (Reg.table_ok r hr s).2]
@@ -144,12 +144,12 @@ theorem C17_spec_agrees (c1 c2 : Chart) (h : SameUpToDecline c1 c2) :
   have hd : ∀ cur n, specDispatch c1 cur n = specDispatch c2 cur n := by
     intro cur n
     unfold specDispatch
-    rw [offers_congr h n cur, h.2.2]
+    rw [offers_congr h n cur, h.2.2.1]
     simp only [settle_congr h]
   refine ⟨hd, ?_, ?_, ⟨WF_of_SameUpToDecline h, WF_of_SameUpToDecline h.symm⟩⟩
   · intro s
     unfold specStart
-    rw [h.2.2]
+    rw [h.2.2.1]
     simp only [settle_congr h]
   · intro cur evs
     induction evs generalizing cur with
@@ -272,6 +272,7 @@ theorem demo_lookup_cases (s : St) :
     simp [Reg.table, demo, e1, e2, e3]
 
 theorem demo_WF : WF (tmplChart demo 3) where
+  no_fall := fun _ => rfl
   init_desc := by
     intro s t h
     rcases demo_lookup_cases s with rfl | rfl | rfl | hs
